@@ -1,7 +1,9 @@
 (* C06 property theorems: statements only, each closed by `exact`.
    Model: Model/C06Model.v (TreeArray / SplitDistribution accumulation, SumTrees collation). *)
 From Coq Require Import ZArith List Bool Permutation QArith.
-From DV Require Import Model.PyPrims Model.C06Model Proofs.C06Lemmas Proofs.C06Proofs Proofs.C06Sched.
+From DV Require Import Model.PyPrims Model.C06Model Model.C06Queue Model.C06Hist Model.C06GenPrims Gen.TreeArrayGen
+     Proofs.C06Lemmas Proofs.C06Proofs Proofs.C06Sched Proofs.C06QueueProofs Proofs.C06QueueSched
+     Proofs.C06GenProofs Proofs.C06GenSched Proofs.C06Hist.
 Import ListNotations.
 Open Scope Z_scope.
 
@@ -302,3 +304,200 @@ Proof.
           (conj (proj2 (proj2 ex_hypotheses)) ex_schedule_runs))).
 Qed.
 Print Assumptions hypotheses_satisfiable.
+
+(* 3''. Histories over the forms the source has NOW (add_tree_r, extend_r, plus_r: step_v true true).
+      All trees rooted, or none of them (unrooted and undefined rooting mixed freely, whatever
+      encode_bipartitions did to them before); every array created with the same settings and
+      is_rooted_trees = None or that rooting; every operation names existing arrays.  Then for all
+      interleavings of add_tree / append / insert (any index) / update / extend / += / +:
+      NO operation raises - merging never fails, empty sides included -, and any two arrays (of the
+      same or of different histories) that should hold the same multiset of trees have the same
+      summary. *)
+Theorem merge_history_invariant_repaired : forall c rooted n1 n2 ops1 ops2 w1 g1 es1 w2 g2 es2 i j t1 t2,
+  (c_rooting c = None \/ c_rooting c = Some rooted) ->
+  Forall (fun o => match o with
+                   | OAdd _ x _ => tr_rooted x = rooted /\ (c_ign_ages c = false -> tr_ages_err x = None)
+                   | _ => True end) ops1 ->
+  Forall (fun o => match o with
+                   | OAdd _ x _ => tr_rooted x = rooted /\ (c_ign_ages c = false -> tr_ages_err x = None)
+                   | _ => True end) ops2 ->
+  Forall (fun o => op_in_range n1 o = true) ops1 -> Forall (fun o => op_in_range n2 o = true) ops2 ->
+  run_pool_v true true (repeat (new_cfg c) n1) (repeat [] n1) ops1 = (w1, g1, es1) ->
+  run_pool_v true true (repeat (new_cfg c) n2) (repeat [] n2) ops2 = (w2, g2, es2) ->
+  Forall (fun e => e = None) es1 /\ Forall (fun e => e = None) es2 /\
+  (nth_error w1 i = Some t1 -> nth_error w2 j = Some t2 ->
+   Permutation (nth i g1 []) (nth j g2 []) -> same_summary t1 t2).
+Proof. exact merge_history_repaired_l. Qed.
+Print Assumptions merge_history_invariant_repaired.
+
+(* ======================================================================================== *)
+(* 6. The hand-out protocol (Model/C06Queue.v): which worker reads which file.             *)
+(*    schedule_irrelevant quantifies over assignments files -> workers; here it is shown   *)
+(*    that EVERY interleaving of the actors of the marker protocol produces one.           *)
+(* ======================================================================================== *)
+
+(* The parent has put the sources and then one None marker per worker (the feeder thread moves them
+   from its buffer into the pipe one by one: action Feed); every worker loops get() until it reads a
+   marker (Get w; on an empty pipe get() blocks: not enabled) and then puts its result (Put w).
+   For every interleaving `acts` of these actions that is executable from the initial state:
+   (a) as long as a worker has not finished, some action is enabled (nobody waits for ever: a worker
+       inside the loop either can get, or the feeder still has something to flush);
+   (b) the execution has at most 2*files + 3*workers steps;
+   (c) when nothing can move any more, exactly that many steps have been made, queue and buffer are
+       empty, every worker has finished; the k-th get of the interleaving received the k-th item:
+       the first `files` gets took the sources - so  firstn files (gets_of acts)  is a TOTAL
+       assignment files -> workers -, the last `workers` gets took the markers and were made by
+       pairwise different workers (every worker left its loop after exactly one marker); the results
+       arrive in an order that is a permutation of the workers; and every worker received exactly
+       the files the assignment gives it, in queue order (worker_files). *)
+Theorem handout_protocol_total : forall (A : Type) (files : list A) (n : nat) (acts : list act) (s : pst A),
+  (1 <= n)%nat ->
+  exec step_new (init_new files n) acts = Some s ->
+  ((exists w x, nth_error (p_workers s) w = Some x /\ w_phase x <> Finished) -> exists a, step_new s a <> None) /\
+  (length acts <= 2 * length files + 3 * n)%nat /\
+  (quiescent step_new s ->
+     length acts = (2 * length files + 3 * n)%nat /\
+     p_queue s = [] /\ p_buf s = [] /\
+     Forall (fun x => w_phase x = Finished) (p_workers s) /\
+     length (gets_of acts) = (length files + n)%nat /\
+     Forall (fun w => (w < n)%nat) (gets_of acts) /\
+     Permutation (skipn (length files) (gets_of acts)) (seq 0 n) /\
+     Permutation (p_results s) (seq 0 n) /\
+     forall w x, nth_error (p_workers s) w = Some x ->
+                 w_recv x = worker_files (mkSched n (firstn (length files) (gets_of acts)) (p_results s)) files w).
+Proof. exact handout_protocol_total_l. Qed.
+Print Assumptions handout_protocol_total.
+
+(* ... hence the schedule induced by ANY complete execution of the protocol satisfies the hypotheses of
+   schedule_irrelevant, the arrays of the workers are the model's worker results, and the collated
+   master array has the same summary as serial mode. *)
+Theorem handout_then_schedule_irrelevant : forall (c : cfg) (r : option bool) (files : list (list trec)) (n : nat)
+                                                  (acts : list act) (s : pst (list trec)),
+  (c_rooting c = None \/ c_rooting c = r) ->
+  Forall (fun x => good_tree c r x) (concat files) ->
+  (1 <= n)%nat ->
+  exec step_new (init_new files n) acts = Some s ->
+  quiescent step_new s ->
+  ((1 <= n)%nat /\
+   length (firstn (length files) (gets_of acts)) = length files /\
+   Forall (fun w => (w < n)%nat) (firstn (length files) (gets_of acts)) /\
+   Permutation (p_results s) (seq 0 n)) /\
+  (forall w x, nth_error (p_workers s) w = Some x ->
+               w_recv x = worker_files (mkSched n (firstn (length files) (gets_of acts)) (p_results s)) files w) /\
+  exists m t,
+    parallel_collate c (mkSched n (firstn (length files) (gets_of acts)) (p_results s)) files = (m, None) /\
+    serial c files = (t, None) /\ same_summary m t.
+Proof. exact handout_then_collate_l. Qed.
+Print Assumptions handout_then_schedule_irrelevant.
+
+(* The OLD protocol (no markers, get_nowait, queue.Empty ends the worker) admits complete executions
+   that lose files: with two sources and two workers, (1) both workers look at the pipe before the
+   feeder has flushed anything - nobody reads anything, both sources stay in the pipe for ever;
+   (2) the feeder has flushed one source when the workers look again - the second source is lost.
+   In both final states no actor can move and every worker has finished normally. *)
+Theorem old_protocol_total_refuted :
+  exists (acts1 acts2 : list act) (s1 s2 : pst nat),
+    exec step_old (init_old [10; 20]%nat 2) acts1 = Some s1 /\ quiescent step_old s1 /\
+    Forall (fun x => w_phase x = Finished) (p_workers s1) /\
+    flat_map w_recv (p_workers s1) = [] /\ p_queue s1 = [Some 10; Some 20]%nat /\
+    exec step_old (init_old [10; 20]%nat 2) acts2 = Some s2 /\ quiescent step_old s2 /\
+    Forall (fun x => w_phase x = Finished) (p_workers s2) /\
+    flat_map w_recv (p_workers s2) = [10]%nat /\ p_queue s2 = [Some 20]%nat.
+Proof. exact old_protocol_drops_files_l. Qed.
+Print Assumptions old_protocol_total_refuted.
+
+(* ======================================================================================== *)
+(* 7. Translator tie.  Gen/TreeArrayGen.v is regenerated from the working tree on every run  *)
+(*    (py/dv/gen_treearray.py, primitives: Model/C06GenPrims.v).  The generated functions   *)
+(*    equal the hand-written model; "no key twice" (a real dict) is the only side condition *)
+(*    and holds in every reachable state (gen_history_refines).                             *)
+(* ======================================================================================== *)
+
+Theorem gen_validate_rooting_refines : forall t r,
+  gen_validate_rooting t r = match validate_rooting t r with inl t1 => (t1, None) | inr e => (t, Some e) end.
+Proof. exact gen_validate_rooting_eq. Qed.
+Print Assumptions gen_validate_rooting_refines.
+
+Theorem gen_sd_update_refines : forall a b,
+  NoDup (keys (sd_counts b)) -> gen_sd_update a b = sd_update a b.
+Proof. exact gen_sd_update_eq. Qed.
+Print Assumptions gen_sd_update_refines.
+
+Theorem gen_update_refines : forall a b,
+  NoDup (keys (sd_counts (ta_sd b))) -> gen_update a b = update a b.
+Proof. exact gen_update_eq. Qed.
+Print Assumptions gen_update_refines.
+
+Theorem gen_add_tree_refines : forall t x is_bipartitions_updated index,
+  gen_add_tree t x is_bipartitions_updated index = add_tree_r t x index.
+Proof. exact gen_add_tree_eq. Qed.
+Print Assumptions gen_add_tree_refines.
+
+Theorem gen_extend_refines : forall a b,
+  NoDup (keys (sd_counts (ta_sd b))) ->
+  gen_extend a b = extend_r a b /\ gen_iadd a b = extend_r a b.
+Proof. exact (fun a b N => conj (gen_extend_eq a b N) (gen_iadd_eq a b N)). Qed.
+Print Assumptions gen_extend_refines.
+
+Theorem gen_add_refines : forall a b,
+  NoDup (keys (sd_counts (ta_sd a))) -> NoDup (keys (sd_counts (ta_sd b))) -> gen_add a b = plus_r a b.
+Proof. exact gen_add_eq. Qed.
+Print Assumptions gen_add_refines.
+
+(* SumTrees: the three arrays are created with the processor's settings; the collation loop over the
+   arrival sequence of the results is the model's collate *)
+Theorem gen_sumtrees_refines : forall c results,
+  gen_worker_array c = new_cfg c /\ gen_serial_array c = new_cfg c /\ gen_master_array c = new_cfg c /\
+  (Forall (fun r => NoDup (keys (sd_counts (ta_sd (fst r))))) results ->
+   gen_collate_loop results (gen_master_array c) 0 (length results) = collate (new_cfg c) results).
+Proof.
+  exact (fun c results => conj (proj1 (gen_arrays_eq c)) (conj (proj1 (proj2 (gen_arrays_eq c)))
+           (conj (proj2 (proj2 (gen_arrays_eq c))) (gen_collate_eq c results)))).
+Qed.
+Print Assumptions gen_sumtrees_refines.
+
+(* whole histories: running any history over fresh arrays with the generated functions gives, step by
+   step, the exceptions and the arrays of the hand model (in its repaired forms add_tree_r / extend_r /
+   plus_r, which is what the source has now) *)
+Theorem gen_history_refines : forall (cfgs : list cfg) (ops : list op),
+  let run_with (stp : list tarr -> op -> list tarr * option terr) :=
+      fix go (w : list tarr) (ops : list op) : list (option terr) * list tarr :=
+        match ops with
+        | [] => ([], w)
+        | o :: r => let '(w', e) := stp w o in let '(es, wf) := go w' r in (e :: es, wf)
+        end in
+  run_with gen_step (map new_cfg cfgs) ops = run_with (step_v true true) (map new_cfg cfgs) ops.
+Proof. exact gen_history_eq. Qed.
+Print Assumptions gen_history_refines.
+
+(* the property about the generated code: the SumTrees pipeline assembled from the generated add_tree,
+   update, arrays and collation loop gives the same summary under every schedule as in serial mode *)
+Theorem schedule_irrelevant_generated : forall (c : cfg) (rooted : bool) (s : sched) (files : list (list trec)),
+  (c_rooting c = None \/ c_rooting c = Some rooted) ->
+  Forall (fun x => tr_rooted x = rooted /\ (c_ign_ages c = false -> tr_ages_err x = None)) (concat files) ->
+  ((1 <= s_workers s)%nat /\
+   length (s_assign s) = length files /\
+   Forall (fun w => (w < s_workers s)%nat) (s_assign s) /\
+   Permutation (s_arrival s) (seq 0 (s_workers s))) ->
+  exists m t, gen_parallel c s files = (m, None) /\ gen_serial c files = (t, None) /\ same_summary m t.
+Proof. exact schedule_irrelevant_generated_l. Qed.
+Print Assumptions schedule_irrelevant_generated.
+
+(* the hand-out protocol that the SOURCE uses (facts read off TreeAnalysisWorker.run and
+   parallel_analyze_trees by the translator: blocking get, leaves the loop on a None marker and not on
+   queue.Empty, parent puts the sources and then one marker per started worker, result put after the
+   loop) is the marker protocol, so handout_protocol_total is a statement about it *)
+Theorem source_handout_protocol_total : forall (A : Type) (files : list A) (n : nat) (acts : list act) (s : pst A),
+  (1 <= n)%nat ->
+  exec (step_of_protocol source_uses_marker_protocol) (init_of_protocol source_uses_marker_protocol files n) acts = Some s ->
+  quiescent (step_of_protocol source_uses_marker_protocol) s ->
+  p_queue s = [] /\ p_buf s = [] /\
+  Forall (fun x => w_phase x = Finished) (p_workers s) /\
+  length (gets_of acts) = (length files + n)%nat /\
+  Forall (fun w => (w < n)%nat) (gets_of acts) /\
+  Permutation (skipn (length files) (gets_of acts)) (seq 0 n) /\
+  Permutation (p_results s) (seq 0 n) /\
+  forall w x, nth_error (p_workers s) w = Some x ->
+              w_recv x = worker_files (mkSched n (firstn (length files) (gets_of acts)) (p_results s)) files w.
+Proof. exact source_handout_total_l. Qed.
+Print Assumptions source_handout_protocol_total.
